@@ -162,6 +162,23 @@ def gen_history(rnd, n_events):
             # prefer a connection that owns / waits for names or is party to a pending call
             busy = [c for c in ords if any(c in q for q in st["owners"].values()) or any(c in p[:2] for p in st["pending"])]
             c = rnd.choice(busy) if busy and rnd.random() < 0.7 else rnd.choice(ords)
+            # often make sure something is outstanding right at the switch: a call to it, a call by it, a name behind it
+            k = rnd.random()
+            others = [o for o in ords if o != c]
+            if k < 0.2 and others:
+                o = rnd.choice(others)
+                sv = ser(o)
+                ev.append("S.%d.c.u%d.6.20.%d.0.0.0.0" % (o, c, sv))
+                st["pending"].append((o, c, sv))
+            elif k < 0.35 and others:
+                o = rnd.choice(others)
+                sv = ser(c)
+                ev.append("S.%d.c.u%d.6.21.%d.0.0.0.0" % (c, o, sv))
+                st["pending"].append((c, o, sv))
+            elif k < 0.5 and others:
+                n = rnd.randrange(N_NAMES)
+                ev.append("R.%d.%d.%d.0" % (c, ser(c), n))
+                ev.append("R.%d.%d.%d.0" % (rnd.choice(others), ser(rnd.choice(others)), n))
             r = rnd.random()
             fs = "-" if r < 0.45 else ",".join(rand_filter(rnd, st, True) for _ in range(rnd.choice([1, 1, 2, 3])))
             ev.append("B.%d.%d.%s" % (c, ser(c), fs))
